@@ -156,6 +156,7 @@ func runC09(c *hx.Ctx) *hx.Outcome {
 	o.SimTime = s.Elapsed()
 	o.ProbeN("source-reads", src.Reads)
 	o.ProbeN("zero-length-reads", src.ZeroN)
+	o.ProbeN("quiet-bursts-of-empty-reads", src.QuietBursts)
 	o.ProbeN("data-returned-with-eof", src.DataErrs)
 	if src.DataErrs > 0 {
 		o.Fault("source:data-together-with-error")
@@ -218,6 +219,16 @@ func runC13(c *hx.Ctx) *hx.Outcome {
 		opts.MaxSegs = 10
 	}
 	segs := gnss.GenStream(t, opts)
+	if t.SBool(1, 12) {
+		// a long stream, so that whole reader buffers (2048, 4096 bytes) fill up
+		// before an interruption
+		k := 3 + t.S(6)
+		for i := 0; i < k; i++ {
+			segs = append(segs, gnss.GenFrame(t, gnss.Opts{LongOneIn: 1}))
+		}
+		segs = append(segs, gnss.GenJunk(t))
+		o.Probe("long-stream")
+	}
 	data := gnss.Concat(segs)
 	tol := []uint{0, 1, 50, 1000, 60000}[t.S(5)]
 	wait := []uint{0, 1, 20, 2000}[t.S(4)]
@@ -234,6 +245,11 @@ func runC13(c *hx.Ctx) *hx.Outcome {
 	for i := 0; i < nInt && len(data) > 0; i++ {
 		// position: biased to inside the leader / payload / CRC of a frame
 		at := pickOffset(t, segs, len(data))
+		if len(data) > 1024 && t.S(3) == 0 {
+			// right after a full reader buffer
+			at = 1024 * (1 + t.S(len(data)/1024))
+			o.Probe("interruption-at-buffer-boundary")
+		}
 		if at <= lastAt {
 			at = lastAt + 1 + t.S(4)
 		}
@@ -305,7 +321,7 @@ func runC13(c *hx.Ctx) *hx.Outcome {
 	s.ChooseStrategy()
 	s.SetStarveKey([]string{"consumer", "handler.go", "file-handler"}[t.D(3)])
 	s.Budget = 96*(len(data)+16) + 20000
-	src := &env.Source{T: t, Data: data, Ints: ints, MaxChunk: []int{1, 7, 64, 4096}[t.S(4)], DataWithErr: t.SBool(1, 3)}
+	src := &env.Source{T: t, Data: data, Ints: ints, MaxChunk: []int{1, 7, 64, 4096, 8192}[t.S(5)], DataWithErr: t.SBool(1, 3), ZeroReads: t.SBool(1, 4)}
 	var got []rtcm.Message
 	closed := 0
 	returned := false
